@@ -19,7 +19,10 @@ struct S {
 
 impl S {
   fn new() -> S {
-    let mut s = S { c: Chain::new(), funding: vec![] };
+    S::with(ChainOpts::default())
+  }
+  fn with(opts: ChainOpts) -> S {
+    let mut s = S { c: Chain::with(opts), funding: vec![] };
     for _ in 0..3 {
       s.block(&[]);
     }
@@ -170,4 +173,53 @@ pub fn allocation_edges() -> Line {
 
 pub fn all() -> Vec<Line> {
   vec![etching_edges(), mint_edges(), allocation_edges()]
+}
+
+/// C37: inscriptions created, moved, sent to an OP_RETURN output, sent to fees, a child of a
+/// carried parent, next to rune etching / mint / transfer / burn in the same blocks
+pub fn events() -> Vec<Line> {
+  let mut s = S::with(ChainOpts { events: true });
+  let ins_w = |body: &str, parents: Vec<Vec<u8>>| -> Vec<Vec<u8>> {
+    let i = ord::Inscription { content_type: Some(b"text/plain".to_vec()), body: Some(body.as_bytes().to_vec()), parents, ..Default::default() };
+    vec![i.append_reveal_script_to_builder(bitcoin::script::Builder::new()).into_script().into_bytes(), vec![]]
+  };
+  let opret = || OutSpec::Script(vec![0x6a, 0x01, 0x58]);
+  let h = u64::from(s.next());
+  // block A: three inscriptions, one of them in a transaction that also etches (premine 10, mintable)
+  let mut a = s.fund();
+  a.witness = ins_w("a", vec![]);
+  let mut b = s.fund();
+  b.witness = ins_w("b", vec![]);
+  let mut c = s.fund();
+  c.witness = ins_w("c", vec![]);
+  let rs = RsSpec {
+    etching: Some(Etching { premine: Some(10), terms: Some(Terms { amount: Some(5), cap: Some(3), height: (None, None), offset: (None, None) }), ..Default::default() }),
+    ..Default::default()
+  };
+  let t = s.block(&[
+    TxSpec { ins: vec![a], outs: vec![OutSpec::P2wpkh] },
+    TxSpec { ins: vec![b], outs: vec![OutSpec::P2wpkh, OutSpec::P2wpkh] },
+    TxSpec { ins: vec![c], outs: vec![OutSpec::P2wpkh, rs_out(&rs)] },
+  ]);
+  let id = RuneId { block: h, tx: 3 };
+  let first_id = ord::InscriptionId { txid: s.c.txs[t[1]].txid, index: 0 };
+  // block B: move a and inscribe a child of it; b to an OP_RETURN output; c (with the runes) split,
+  // minting in the same transaction
+  let mut child = input((t[1], 0));
+  child.witness = ins_w("child", vec![crate::gen::inscription_id_value(first_id)]);
+  let mint = RsSpec { mint: Some(id), edicts: vec![(id, 4, 1)], ..Default::default() };
+  let f = s.fund();
+  let t2 = s.block(&[
+    TxSpec { ins: vec![child], outs: vec![OutSpec::P2wpkh] },
+    TxSpec { ins: vec![input((t[2], 0))], outs: vec![opret()] },
+    TxSpec { ins: vec![input((t[3], 0)), f], outs: vec![OutSpec::P2wpkh, OutSpec::P2tr, rs_out(&mint)] },
+  ]);
+  // block C: parent + child to fees; runes of output 1 into a cenotaph (burned), with a mint
+  let cen = RsSpec { mint: Some(id), flaw: 1, ..Default::default() };
+  s.block(&[
+    TxSpec { ins: vec![input((t2[1], 0))], outs: vec![] },
+    TxSpec { ins: vec![input((t2[3], 1))], outs: vec![OutSpec::P2wpkh, rs_out(&cen)] },
+  ]);
+  s.block(&[]);
+  vec![s.c.line()]
 }
